@@ -409,16 +409,31 @@ func foreign(shape int) *Node {
 		s.AddField(verifI16(), in)
 		s.AddField(7, leaf(wire.TBool))
 		return s
-	default:
+	case 13:
 		n := Map(wire.TBinary, wire.TList)
 		l := List(wire.TBool)
 		l.Add(leaf(wire.TBool))
 		n.AddKV(leaf(wire.TBinary), l)
 		return n
+	default:
+		// "any nesting depth": 70 levels, structs and single-element lists of
+		// structs alternating, a scalar at the bottom
+		cur := leaf(wire.TI8)
+		for d := 0; d < 70; d++ {
+			st := Struct()
+			st.AddField(1, cur)
+			cur = st
+			if d%2 == 1 {
+				l := List(wire.TStruct)
+				l.Add(cur)
+				cur = l
+			}
+		}
+		return cur
 	}
 }
 
-const nForeign = 14
+const nForeign = 15
 
 func insertField(n *Node, pos int, id int16, c *Node) {
 	n.IDs = append(n.IDs, 0)
@@ -509,8 +524,10 @@ func H05() {
 			repl.Add(Leaf(wire.TI64, verifU64()))
 			verifAssume(old.KT != wire.TI64)
 		default:
-			repl = Map(wire.TI64, wire.TI64)
-			repl.AddKV(Leaf(wire.TI64, verifU64()), Leaf(wire.TI64, verifU64()))
+			// key and value of different widths (a decoder that skips by the
+			// wrong one of the two types loses its place in the stream)
+			repl = Map(wire.TI64, wire.TI8)
+			repl.AddKV(Leaf(wire.TI64, verifU64()), Leaf(wire.TI8, uint64(verifByte())))
 			verifAssume(old.KT != wire.TI64)
 		}
 		tree.Kids[pos] = repl
